@@ -44,7 +44,7 @@ type hcert struct {
 	parent [32]byte
 	sig    [64]byte
 	fp     [32]byte
-	raw    []byte // the bytes Go retains in c.raw (signature is checked over raw[:len-64])
+	raw    []byte // the bytes the certificate was read from / serializes to (the signature covers raw[:len-64])
 	c      *certs.Certificate
 	wire   []byte    // serialized form when there is one (for the policy path)
 	addFP  *[32]byte // Fingerprint field at the time of Store.AddCertificate, when it was changed afterwards
@@ -152,8 +152,7 @@ func fromBytes(label string, b []byte) *hcert {
 		return nil
 	}
 	if byte(c.Type) != h.typ || !c.IssuedAt.Equal(h.nb) || !c.ExpiresAt.Equal(h.na) || c.PublicKey != h.pk ||
-		c.Parent != h.parent || c.Signature != h.sig || c.Fingerprint != h.fp || !sameNames(c.IDChunk.Blocks, h.names) ||
-		!bytes.Equal(c.VerifRaw(), b) {
+		c.Parent != h.parent || c.Signature != h.sig || c.Fingerprint != h.fp || !sameNames(c.IDChunk.Blocks, h.names) {
 		parseMismatch = fmt.Sprintf("%s: parsed fields differ from the bytes %x", label, b)
 	}
 	h.label = label
@@ -161,28 +160,32 @@ func fromBytes(label string, b []byte) *hcert {
 	return h
 }
 
-// fromIssued wraps an in-memory certificate returned by an issuing function.
+// fromIssued wraps an in-memory certificate returned by an issuing function. Its bytes are obtained
+// with the exported Marshal (body followed by the Signature field).
 func fromIssued(label string, c *certs.Certificate) *hcert {
 	h := &hcert{label: label, typ: byte(c.Type), names: c.IDChunk.Blocks, nb: c.IssuedAt, na: c.ExpiresAt,
-		pk: c.PublicKey, parent: c.Parent, sig: c.Signature, fp: c.Fingerprint, raw: c.VerifRaw(), c: c}
-	// issue/selfSign serialize before signing: the retained bytes end in 64 zero bytes, the signature
-	// lives in the struct field only (VerifyParent reads it from there); the wire form has it appended
-	if len(h.raw) >= 64 {
-		h.wire = append(append([]byte(nil), h.raw[:len(h.raw)-64]...), h.sig[:]...)
+		pk: c.PublicKey, parent: c.Parent, sig: c.Signature, fp: c.Fingerprint, c: c}
+	if b, err := c.Marshal(); err == nil {
+		h.raw = b
+		h.wire = b
 	}
 	return h
 }
 
-// inMemory builds a certificate struct by hand (fields possibly different from the retained bytes).
+// inMemory: a certificate parsed from base's bytes with the exported ReadFrom whose exported struct
+// fields are then changed (what the repository's unit tests do); the bytes it was read from stay.
 func inMemory(label string, base *hcert, mut func(h *hcert)) *hcert {
 	h := *base
 	h.label = label
 	h.names = append([]certs.Name(nil), base.names...)
 	h.wire = nil
 	mut(&h)
-	c := &certs.Certificate{Version: 1, Type: certs.CertificateType(h.typ), IssuedAt: h.nb, ExpiresAt: h.na,
-		IDChunk: certs.IDChunk{Blocks: h.names}, PublicKey: h.pk, Parent: h.parent, Signature: h.sig, Fingerprint: h.fp}
-	c.VerifSetRaw(h.raw)
+	c, ok := goParse(base.wire)
+	if !ok {
+		panic("inMemory: base does not parse: " + base.label)
+	}
+	c.Type, c.IssuedAt, c.ExpiresAt = certs.CertificateType(h.typ), h.nb, h.na
+	c.IDChunk.Blocks, c.PublicKey, c.Parent, c.Signature, c.Fingerprint = h.names, h.pk, h.parent, h.sig, h.fp
 	h.c = c
 	return &h
 }
@@ -1035,9 +1038,6 @@ func inMemoryMutations(r *hv.Rand, all []*hcert) {
 			{"type=2", func(h *hcert) { h.typ = 2 }},
 			{"sig[0]++", func(h *hcert) { h.sig[0]++ }},
 			{"parent[0]++", func(h *hcert) { h.parent[0]++ }},
-			{"no-raw", func(h *hcert) { h.raw = nil }},
-			{"raw-truncated-63", func(h *hcert) { h.raw = h.raw[:63] }},
-			{"raw-truncated-64", func(h *hcert) { h.raw = h.raw[:64] }},
 			{"names=[]", func(h *hcert) { h.names = nil }},
 			{"names+extra", func(h *hcert) { h.names = append(h.names, certs.DNSName("extra.example")) }},
 		}
@@ -1087,61 +1087,98 @@ type strictPolicy struct {
 	cur   time.Time
 }
 
+// unstoredBytes: positions of the bytes of a serialized certificate that the parser accepts without
+// keeping them in a struct field (version byte, the two reserved bytes, the chunk length, the size
+// byte of every ID block) plus the type byte: every bit of these is flipped in every tier.
+func unstoredBytes(b []byte) []int {
+	pos := []int{0, 1, 2, 3, 84, 85}
+	if len(b) < 86 {
+		return pos
+	}
+	cl := int(binary.BigEndian.Uint16(b[84:86]))
+	p, read := 86, 0
+	for read < cl-2 && p+3 <= len(b)-64 {
+		pos = append(pos, p, p+2) // block size byte and label length byte
+		l := int(b[p+2])
+		p += 3 + l
+		read += 3 + l
+	}
+	return pos
+}
+
 func bitFlips(r *hv.Rand, all []*hcert, step int) {
 	roots := ofType(all, 3)
-	done := 0
-	for _, leaf := range ofType(all, 1) {
-		im := byFP(all, leaf.parent)
-		if im == nil {
+	// the verified chain whose leaf carries the most names (most ID-block size bytes)
+	var leaf, im *hcert
+	var tb time.Time
+	for _, l := range ofType(all, 1) {
+		i := byFP(all, l.parent)
+		if i == nil {
 			continue
 		}
-		root := byFP(all, im.parent)
-		tb := commonTime(leaf, im, root)
-		if !specValidChain(roots, im, nameReq{zero: true}, tb, leaf) {
+		t := commonTime(l, i, byFP(all, i.parent))
+		if !specValidChain(roots, i, nameReq{zero: true}, t, l) {
 			continue
 		}
-		if !runVerify("bitflip/base", query{store: roots, presented: im, name: nameReq{zero: true}, cur: tb, leaf: leaf}) {
-			continue
+		if leaf == nil || len(l.names) > len(leaf.names) {
+			leaf, im, tb = l, i, t
 		}
-		for which, target := range []*hcert{leaf, im} {
-			off := r.Intn(step)
-			for i := off; i < 8*len(target.wire); i += step {
-				fb := flipBit(target.wire, i)
-				rawLeaf, rawIm := leaf.wire, im.wire
-				if which == 0 {
-					rawLeaf = fb
-				} else {
-					rawIm = fb
-				}
-				m := fromBytes(fmt.Sprintf("%s~bit%d", target.label, i), fb)
-				// direct call when the flipped bytes still parse
-				if m != nil {
-					q := query{store: roots, presented: im, name: nameReq{zero: true}, cur: tb, leaf: leaf}
-					if which == 0 {
-						q.leaf = m
-					} else {
-						q.presented = m
-					}
-					if runVerify("bitflip/direct", q) {
-						// the oracle has already judged it; bit flips must all be rejected
-						hv.Emit(hv.Case{Class: "bitflip/accepted", Desc: fmt.Sprintf("bit %d of %s flipped, still accepted", i, target.label), Spec: false,
-							Sig: "C04:bit-flip-accepted", What: fmt.Sprintf("flipping bit %d of the verified %s (%x) leaves verification successful", i, target.label, target.wire)})
-					}
-				}
-				// handshake path on the raw bytes
-				lh, ih := leaf, im
-				if which == 0 {
-					lh = m
-				} else {
-					ih = m
-				}
-				runPolicy("bitflip/policy", policyCase{cfg: &policyCfg{store: roots, cur: tb, name: nameReq{zero: true}}, rawLeaf: rawLeaf, rawIm: rawIm, leaf: lh, im: ih,
-					imGiven: true, mustReject: true, what: fmt.Sprintf("bit %d of %s flipped", i, target.label)})
+	}
+	if leaf == nil {
+		return
+	}
+	if !runVerify("bitflip/base", query{store: roots, presented: im, name: nameReq{zero: true}, cur: tb, leaf: leaf}) {
+		return
+	}
+	for which, target := range []*hcert{leaf, im} {
+		bits := map[int]string{}
+		for i := r.Intn(step); i < 8*len(target.wire); i += step {
+			bits[i] = "bitflip"
+		}
+		for _, p := range unstoredBytes(target.wire) {
+			for k := 0; k < 8; k++ {
+				bits[8*p+k] = "bitflip-unstored-byte"
 			}
 		}
-		done++
-		if done >= 1 {
-			break
+		var order []int
+		for i := range bits {
+			order = append(order, i)
+		}
+		sort.Ints(order)
+		for _, i := range order {
+			cls := bits[i]
+			fb := flipBit(target.wire, i)
+			rawLeaf, rawIm := leaf.wire, im.wire
+			if which == 0 {
+				rawLeaf = fb
+			} else {
+				rawIm = fb
+			}
+			m := fromBytes(fmt.Sprintf("%s~bit%d", target.label, i), fb)
+			what := fmt.Sprintf("bit %d (byte %d) of the verified %s flipped: %x", i, i/8, target.label, fb)
+			// direct call when the flipped bytes still parse
+			if m != nil {
+				q := query{store: roots, presented: im, name: nameReq{zero: true}, cur: tb, leaf: leaf}
+				if which == 0 {
+					q.leaf = m
+				} else {
+					q.presented = m
+				}
+				if runVerify(cls+"/direct", q) {
+					// "changing any bit of a verified leaf or intermediate makes verification fail"
+					hv.Emit(hv.Case{Class: cls + "/accepted", Desc: what, Spec: false, Sig: "C04:bit-flip-accepted",
+						What: "VerifyLeaf still succeeds after " + what + " (original " + fmt.Sprintf("%x", target.wire) + ")"})
+				}
+			}
+			// handshake path on the raw bytes
+			lh, ih := leaf, im
+			if which == 0 {
+				lh = m
+			} else {
+				ih = m
+			}
+			runPolicy(cls+"/policy", policyCase{cfg: &policyCfg{store: roots, cur: tb, name: nameReq{zero: true}}, rawLeaf: rawLeaf, rawIm: rawIm, leaf: lh, im: ih,
+				imGiven: true, mustReject: true, what: what})
 		}
 	}
 }
@@ -1441,8 +1478,8 @@ func specIssued(par *hcert, hasKey bool, pk [32]byte, names []certs.Name, typ by
 	if byte(out.Type) != typ || out.Parent != par.fp || out.PublicKey != pk || !sameNames(out.IDChunk.Blocks, names) {
 		return "issued certificate's type/parent/key/names differ from the request"
 	}
-	raw := out.VerifRaw()
-	if len(raw) < 64 || !ed25519.Verify(ed25519.PublicKey(par.pk[:]), raw[:len(raw)-64], out.Signature[:]) {
+	raw, merr := out.Marshal()
+	if merr != nil || len(raw) < 64 || !ed25519.Verify(ed25519.PublicKey(par.pk[:]), raw[:len(raw)-64], out.Signature[:]) {
 		return "the parent's key does not verify the issued certificate's signature over its serialized body"
 	}
 	wire := append(append([]byte(nil), raw[:len(raw)-64]...), out.Signature[:]...)
@@ -1543,7 +1580,7 @@ func runSelfSign(class string, withKey bool, typ byte, kp *keys.SigningKeyPair, 
 	if err == nil {
 		// property statement: a self-signed root starts now, has a zero parent and is signed by its own key
 		bad := ""
-		raw := out.VerifRaw()
+		raw, _ := out.Marshal()
 		switch {
 		case out.IssuedAt.Before(before) || out.IssuedAt.After(after):
 			bad = "IssuedAt is not the time of the call"
@@ -1807,7 +1844,7 @@ func main() {
 		sweepForest(r, "valid-forest", all, hv.Scale(3, 10), 100)
 		if i == 0 {
 			inMemoryMutations(r, all)
-			bitFlips(r, all, hv.Scale(11, 1))
+			bitFlips(r, all, hv.Scale(17, 1))
 			for _, a := range all {
 				for _, b := range all {
 					runParent("parent", a, b)
@@ -1823,7 +1860,7 @@ func main() {
 	for i := 0; i < nWild; i++ {
 		f := synthForest(r, fmt.Sprintf("w%d.", i), true)
 		all := hs(f)
-		sweepForest(r, "wild-forest", all, hv.Scale(2, 8), hv.Scale(42, 100))
+		sweepForest(r, "wild-forest", all, hv.Scale(2, 8), hv.Scale(36, 100))
 		if i < hv.Scale(1, 6) {
 			for _, a := range all {
 				for _, b := range all {
